@@ -7,7 +7,7 @@ EXPLANATION = 'Mixed. P: writer.write_multi, find_max_part and api.part_ids exec
 def p_parts():
     from ._parts import p_parts as p_partnames
     from ._generic import optional_parts
-    return [p_partnames] + optional_parts(("_partfiles", "p_partfiles"))
+    return [p_partnames] + optional_parts(("_partfiles", "p_partfiles"), ("_pathconv", "p_part_id"))
 
 
 def run(ctx):
